@@ -16,6 +16,55 @@ TYPE_LETTER = {"Display": "", "Debug": "?", "Octal": "o", "LowerHex": "x", "Uppe
                "Binary": "b", "LowerExp": "e", "UpperExp": "E"}
 
 
+CASINGS = ["lowercase", "UPPERCASE", "PascalCase", "camelCase", "snake_case", "SCREAMING_SNAKE_CASE", "kebab-case",
+           "SCREAMING-KEBAB-CASE"]
+
+
+def words(name):
+    """split a simple identifier into words: underscores and lower->Upper transitions"""
+    out = []
+    for part in re.split(r"[_\-\s]+", name):
+        if not part:
+            continue
+        out += re.findall(r"[A-Z]+(?![a-z])|[A-Z]?[a-z0-9]+", part)
+    return [w.lower() for w in out]
+
+
+def rename(name, casing):
+    """independent implementation of the eight casings (convert_case itself is not modelled)"""
+    w = words(name)
+    c = casing.replace("-", "").replace("_", "").lower()
+    if c == "lowercase":
+        return "".join(w)
+    if c == "uppercase":
+        return "".join(w).upper()
+    if c == "pascalcase":
+        return "".join(x.capitalize() for x in w)
+    if c == "camelcase":
+        return w[0] + "".join(x.capitalize() for x in w[1:]) if w else ""
+    if c == "snakecase":
+        return "_".join(w)
+    if c == "screamingsnakecase":
+        return "_".join(w).upper()
+    if c == "kebabcase":
+        return "-".join(w)
+    if c == "screamingkebabcase":
+        return "-".join(w).upper()
+    raise ValueError(casing)
+
+
+def decode_name(s):
+    """a unit name printed by the model: the symbolic instance of `to_case` (Fmt/Front.v, to_case_marker) leaves a
+    private-use marker U+E000+k in front of the unconverted name; the conversion itself is done here"""
+    if s and 0xE000 <= ord(s[0]) < 0xE008:
+        return rename(s[1:], CASINGS[ord(s[0]) - 0xE000])
+    return s
+
+
+MODEL_DEFAULT_LITERAL = {}   # trait -> literal, read from the Coq model once per run
+MODEL_ATTR_NAME = {}         # trait -> attribute name, read from the Coq model once per run
+
+
 def rust_lit(s):
     out = ['"']
     for c in s:
@@ -194,16 +243,136 @@ def opt_attr_coq(a, et):
     return "None" if a is None else "(Some %s)" % attr_coq(a, et)
 
 
+# ------------------------------------------------------------------ raw attributes (Fmt/Front.v: raw_attr)
+# {"name": attribute name, "kind": fmt|bound|rename_all|skip|legacy_fmt|legacy_bound|other, ...}
+
+def raw_of_summary(an, fmt=None, bounds=(), rename_all=None):
+    """the attribute list of an item described by its summary keys, in the order item_src has always rendered them"""
+    out = []
+    if fmt is not None:
+        out.append({"name": an, "kind": "fmt", "attr": fmt})
+    for b in bounds or ():
+        out.append({"name": an, "kind": "bound", "kw": b[0], "src": b[1]})
+    if rename_all:
+        out.append({"name": an, "kind": "rename_all", "value": rename_all})
+    return out
+
+
+def container_raw(c, an):
+    if c.get("raw") is not None:
+        return c["raw"]
+    return raw_of_summary(an, c.get("fmt"), c.get("bounds"), c.get("rename_all"))
+
+
+def variant_raw(v, an):
+    if v.get("raw") is not None:
+        return v["raw"]
+    return raw_of_summary(an, v.get("fmt"), v.get("bounds"), v.get("rename_all"))
+
+
+def field_raw(f, an):
+    if f.get("raw") is not None:
+        return f["raw"]
+    a = f.get("attr")
+    if a is None:
+        return []
+    if a in ("skip", "ignore"):
+        return [{"name": an, "kind": "skip", "kw": a}]
+    return [{"name": an, "kind": "fmt", "attr": a}]
+
+
+def raw_src(r):
+    k = r["kind"]
+    if k == "fmt":
+        inner = attr_src(r["attr"])
+    elif k == "bound":
+        inner = "%s(%s)" % (r["kw"], r["src"])
+    elif k == "rename_all":
+        inner = "rename_all = %s" % rust_lit(r["value"])
+    elif k == "skip":
+        inner = r["kw"]
+    else:
+        inner = r["src"]
+    if inner is None:
+        return "#[%s]" % r["name"]
+    return "#[%s(%s)]" % (r["name"], inner)
+
+
+def split_top(src):
+    out, depth, cur = [], 0, ""
+    for ch in src:
+        if ch in "<([":
+            depth += 1
+        elif ch in ">)]":
+            depth -= 1
+        if ch == "," and depth == 0:
+            out.append(cur)
+            cur = ""
+        else:
+            cur += ch
+    if cur.strip():
+        out.append(cur)
+    return out
+
+
+def raw_coq(r, et, preds):
+    k = r["kind"]
+    if k == "fmt":
+        c = "RCFmt %s" % attr_coq(r["attr"], et)
+    elif k == "bound":
+        ids = [str(preds.setdefault(nows(p), len(preds) + 1)) for p in split_top(r["src"])]
+        c = "RCBound [%s]" % "; ".join(ids)
+    elif k == "rename_all":
+        c = "RCRenameAll %s" % coq_str(r["value"])
+    elif k == "skip":
+        c = "RCSkip"
+    elif k == "legacy_fmt":
+        c = "RCLegacyFmt"
+    elif k == "legacy_bound":
+        c = "RCLegacyBound"
+    else:
+        c = "RCOther"
+    return "{| ra_name := %s; ra_content := %s |}" % (coq_str(r["name"]), c)
+
+
+def raws_coq(rs, et, preds):
+    return "[%s]" % "; ".join(raw_coq(r, et, preds) for r in rs)
+
+
+def rfields_coq(fs, an, et, tids, preds):
+    fl = []
+    for f in fs["list"]:
+        tid = tids.setdefault(re.sub(r"\s+", "", f["ty"][0]), len(tids) + 1)
+        fl.append("{| rf_name := %s; rf_ty := %s; rf_tid := %d; rf_attrs := %s |}" % (
+            "None" if f.get("name") is None else "(Some %s)" % coq_str(f["name"]), f["ty"][1], tid,
+            raws_coq(field_raw(f, an), et, preds)))
+    return "{| rfk := %s; rfl := [%s] |}" % ({"unit": "Unit", "unnamed": "Unnamed", "named": "Named"}[fs["kind"]],
+                                              "; ".join(fl))
+
+
+def ritem_coq(it, et, tids, preds):
+    """the derive input as a Coq `ritem` (Fmt/Front.v)"""
+    an = ATTR_OF[it["trait"]]
+    params = "[%s]" % "; ".join(coq_str(p) for p in it["params"])
+    if it["kind"] == "union":
+        data = "RUnion %s" % rfields_coq(it["fields"], an, et, tids, preds)
+    elif it["kind"] == "struct":
+        data = "RStruct %s" % rfields_coq(it["fields"], an, et, tids, preds)
+    else:
+        vs = []
+        for v in it["variants"]:
+            vs.append("{| rv_attrs := %s; rv_ident := %s; rv_fields := %s |}" % (
+                raws_coq(variant_raw(v, an), et, preds), coq_str(v["name"]), rfields_coq(v["fields"], an, et, tids, preds)))
+        data = "REnum [%s]" % "; ".join(vs)
+    return "{| ri_attrs := %s; ri_ident := %s; ri_params := %s; ri_data := (%s) |}" % (
+        raws_coq(container_raw(it["container"], an), et, preds), coq_str(it["name"]), params, data)
+
+
 # ------------------------------------------------------------------ fields / items
 
 def fields_src(fs, attr_name="debug"):
     def fa(f):
-        a = f.get("attr")
-        if a is None:
-            return ""
-        if a in ("skip", "ignore"):
-            return "#[%s(%s)] " % (attr_name, a)
-        return "#[%s(%s)] " % (attr_name, attr_src(a))
+        return "".join(raw_src(r) + " " for r in field_raw(f, attr_name))
     if fs["kind"] == "unit":
         return ""
     if fs["kind"] == "unnamed":
@@ -232,12 +401,8 @@ def item_src(it):
     an = ATTR_OF[it["trait"]]
     lines = []
     c = it["container"]
-    if c.get("fmt") is not None:
-        lines.append("#[%s(%s)]" % (an, attr_src(c["fmt"])))
-    for b in c.get("bounds", []):
-        lines.append("#[%s(%s(%s))]" % (an, b[0], b[1]))
-    if c.get("rename_all"):
-        lines.append("#[%s(rename_all = %s)]" % (an, rust_lit(c["rename_all"])))
+    for r in container_raw(c, an):
+        lines.append(raw_src(r))
     g = generics_src(it["params"])
     if it["kind"] == "union":
         lines.append("union %s%s%s" % (it["name"], g, fields_src(it["fields"], an)))
@@ -248,11 +413,7 @@ def item_src(it):
     else:
         vs = []
         for v in it["variants"]:
-            pre = ""
-            if v.get("fmt") is not None:
-                pre += "#[%s(%s)] " % (an, attr_src(v["fmt"]))
-            for b in v.get("bounds", []):
-                pre += "#[%s(%s(%s))] " % (an, b[0], b[1])
+            pre = "".join(raw_src(r) + " " for r in variant_raw(v, an))
             vs.append(pre + v["name"] + fields_src(v["fields"], an))
         lines.append("enum %s%s { %s }" % (it["name"], g, ", ".join(vs)))
     return "\n".join(lines)
@@ -348,17 +509,20 @@ def canon_model_body(t, et):
         lit, args = model_attr(t[1], et)
         return ("write", lit, args + deref_args(t[2]))
     if h == "BWriteStr":
-        return ("write_str", py_str(t[1]), "method")
+        return ("write_str", decode_name(py_str(t[1])), "method")
     if h == "BMatchVariant":
         v = t[1]
         if v[0] == "VFormatArgs":
             lit, args = model_attr(v[1], et)
             cv = ("format_args", lit, args + deref_args(v[2]))
         elif v[0] == "VName":
-            cv = ("name", py_str(v[1]))
+            cv = ("name", decode_name(py_str(v[1])))
         else:
-            cv = ("format_args", "{" + (":" + TYPE_LETTER[TR_PY[v[1]]] if TYPE_LETTER[TR_PY[v[1]]] else "") + "}",
-                  ((None, nows(py_str(v[2]))),))
+            # the literal comes from the model's table (Fmt/Front.v default_placeholder_literal) when it has been
+            # loaded by fmtcheck.load_model_tables, else from this module's own letter table
+            tr = TR_PY[v[1]]
+            dl = MODEL_DEFAULT_LITERAL.get(tr, "{" + (":" + TYPE_LETTER[tr] if TYPE_LETTER[tr] else "") + "}")
+            cv = ("format_args", dl, ((None, nows(py_str(v[2]))),))
         return ("match_variant", cv, canon_model_body(t[2], et))
     raise ValueError(t)
 
